@@ -71,6 +71,13 @@ theorem C10_partition_checkP (shardMax : Nat) (docs : List BDoc) (hid : docs.map
   rw [e]
   exact h
 
+/-- **C10_config_independent.** Two builds of the same documents — any two shard limits, any two insertion orders — store
+    the same multiset of documents in their shards. (With C01 — a search result is a function of the indexed documents and
+    their per-document data — the files found, their matches and branches are the same.) -/
+theorem C10_config_independent (m1 m2 : Nat) (docs1 docs2 : List BDoc) (h : docs1.Perm docs2) :
+    (buildSorted m1 docs1).flatten.Perm (buildSorted m2 docs2).flatten :=
+  ((stored_documents_perm m1 docs1).trans h).trans (stored_documents_perm m2 docs2).symm
+
 /-! ### buffer reuse -/
 
 /-- builders a `Builder` can take out of its pool: fresh, or obtained by documents and resets -/
